@@ -46,13 +46,20 @@ func (c *mgCtx) function() {
 			return
 		}
 		for _, f := range fl.List {
-			if _, ptr := f.Type.(*ast.StarExpr); ptr && recv {
-				mgFail(f, "pointer receiver")
-			}
 			if _, variadic := f.Type.(*ast.Ellipsis); variadic {
 				mgFail(f, "variadic parameter")
 			}
-			t := c.m.typeOf(f.Type)
+			var t *mgType
+			if st, ptr := f.Type.(*ast.StarExpr); ptr && recv {
+				// a pointer receiver is the value it points to; the function returns the new value
+				t = c.m.typeOf(st.X)
+				if (t.Kind != mgSlice && t.Kind != mgStruct) || t.Name == "" || len(f.Names) != 1 || f.Names[0].Name == "_" {
+					mgFail(f, "pointer receiver %s (named slice and struct types with a named receiver only)", exprText(f.Type))
+				}
+				fn.PtrRecv, fn.RecvGo, fn.RecvT = true, f.Names[0].Name, t
+			} else {
+				t = c.m.typeOf(f.Type)
+			}
 			c.m.useRecord(t)
 			names := f.Names
 			if len(names) == 0 {
@@ -71,15 +78,30 @@ func (c *mgCtx) function() {
 	}
 	addParams(fd.Recv, true)
 	addParams(fd.Type.Params, false)
-	if fd.Type.Results == nil || len(fd.Type.Results.List) != 1 || len(fd.Type.Results.List[0].Names) > 0 {
-		mgFail(fd, "the fragment has functions with exactly one unnamed result")
+	fn.Res = nil
+	switch {
+	case fd.Type.Results == nil || len(fd.Type.Results.List) == 0:
+		if !fn.PtrRecv {
+			mgFail(fd, "a function without a result and without a pointer receiver has no effect in the fragment")
+		}
+	case len(fd.Type.Results.List) != 1 || len(fd.Type.Results.List[0].Names) > 0:
+		mgFail(fd, "the fragment has functions with at most one unnamed result")
+	default:
+		rt := fd.Type.Results.List[0].Type
+		if st, ok := rt.(*ast.StarExpr); ok && fn.PtrRecv && exprText(st.X) == fn.RecvT.Name {
+			fn.RetSelf = true // result *C: every return must be `return c`
+		} else {
+			fn.Res = c.m.typeOf(rt)
+			c.m.useRecord(fn.Res)
+		}
 	}
-	fn.Res = c.m.typeOf(fd.Type.Results.List[0].Type)
-	c.m.useRecord(fn.Res)
 	if fd.Body == nil {
 		mgFail(fd, "function without a body")
 	}
-	fn.Body = c.stmts(fd.Body.List, "  ", true, func(string) string {
+	fn.Body = c.stmts(fd.Body.List, "  ", true, func(ind string) string {
+		if fn.PtrRecv && fn.Res == nil && !fn.RetSelf {
+			return ind + c.retVal("") // falling off the end of a method without results: the receiver as it is now
+		}
 		mgFail(fd, "control reaches the end of the function without return")
 		return ""
 	})
@@ -91,11 +113,11 @@ func (c *mgCtx) takeGuards(ind string, tail bool, at ast.Node) string {
 		return ""
 	}
 	if !tail {
-		mgFail(at, "division by a non-constant in a branch or loop body that does not return (its panic cannot be hoisted)")
+		mgFail(at, "a division by a non-constant, an index or a call that can panic in a branch that does not return (its panic cannot be hoisted)")
 	}
 	var b strings.Builder
 	for _, g := range c.guards {
-		fmt.Fprintf(&b, "%sif (%s =? 0) then None else\n", ind, g)
+		fmt.Fprintf(&b, "%s%s\n", ind, g)
 	}
 	c.guards = nil
 	return b.String()
@@ -106,6 +128,20 @@ func (c *mgCtx) some(txt string) string {
 		return "Some (" + txt + ")"
 	}
 	return txt
+}
+
+// retVal: the function's result for the Go result text res ("" = none); a pointer-receiver method also returns the
+// receiver's current value
+func (c *mgCtx) retVal(res string) string {
+	fn := c.fn
+	if fn.PtrRecv {
+		r := c.env[fn.RecvGo].Coq
+		if fn.Res == nil {
+			return c.some(r)
+		}
+		return c.some("(" + r + ", " + res + ")")
+	}
+	return c.some(res)
 }
 
 func mgIsPanic(s ast.Stmt) bool {
@@ -197,6 +233,12 @@ func (c *mgCtx) assignedOuter(list []ast.Stmt) []string {
 			case *ast.SliceExpr:
 				e = x.X
 				continue
+			case *ast.IndexExpr:
+				e = x.X
+				continue
+			case *ast.StarExpr:
+				e = x.X
+				continue
 			case *ast.Ident:
 				if x.Name != "_" && !declared[x.Name] && !seen[x.Name] {
 					if _, ok := c.env[x.Name]; ok {
@@ -238,16 +280,40 @@ func (c *mgCtx) assignedOuter(list []ast.Stmt) []string {
 					}
 				}
 			case *ast.ExprStmt: // the PutUint32 statement assigns its first argument
-				if call, ok := x.X.(*ast.CallExpr); ok && len(call.Args) > 0 && !mgIsPanic(x) {
-					note(call.Args[0], declared)
+				if call, ok := x.X.(*ast.CallExpr); ok && !mgIsPanic(x) {
+					if len(call.Args) > 0 {
+						note(call.Args[0], declared)
+					}
+					if sel, ok := call.Fun.(*ast.SelectorExpr); ok { // c.M(..): a pointer-receiver method assigns c
+						if id, ok := sel.X.(*ast.Ident); ok {
+							note(id, declared)
+						}
+					}
 				}
 			case *ast.BlockStmt:
 				walk(x.List, declared)
 			case *ast.IfStmt:
-				walk(x.Body.List, declared)
-				if x.Else != nil {
-					walk([]ast.Stmt{x.Else}, declared)
+				var init []ast.Stmt
+				if x.Init != nil {
+					init = []ast.Stmt{x.Init}
 				}
+				walk(append(append([]ast.Stmt{}, init...), x.Body.List...), declared)
+				if x.Else != nil {
+					walk(append(append([]ast.Stmt{}, init...), x.Else), declared)
+				}
+			case *ast.RangeStmt:
+				d2 := map[string]bool{}
+				for k := range declared {
+					d2[k] = true
+				}
+				if x.Tok == token.DEFINE {
+					for _, e := range []ast.Expr{x.Key, x.Value} {
+						if id, ok := e.(*ast.Ident); ok {
+							d2[id.Name] = true
+						}
+					}
+				}
+				walk(x.Body.List, d2)
 			case *ast.ForStmt:
 				d2 := map[string]bool{}
 				for k := range declared {
@@ -317,6 +383,33 @@ func (c *mgCtx) stmts(list []ast.Stmt, ind string, tail bool, k func(ind string)
 			mgFail(x, "return inside a branch or loop body that is not in result position")
 		}
 		noRest("return")
+		if c.loopDepth > 0 {
+			mgFail(x, "return inside a loop body")
+		}
+		if c.fn.PtrRecv {
+			switch {
+			case c.fn.RetSelf:
+				id, ok := (ast.Expr)(nil), false
+				if len(x.Results) == 1 {
+					id, ok = x.Results[0], true
+				}
+				if i2, isId := id.(*ast.Ident); !ok || !isId || i2.Name != c.fn.RecvGo {
+					mgFail(x, "a method with result *%s must `return %s`", c.fn.RecvT.Name, c.fn.RecvGo)
+				}
+				return ind + c.retVal("")
+			case c.fn.Res == nil:
+				if len(x.Results) != 0 {
+					mgFail(x, "return with %d results", len(x.Results))
+				}
+				return ind + c.retVal("")
+			}
+			if len(x.Results) != 1 {
+				mgFail(x, "return with %d results", len(x.Results))
+			}
+			v := c.coerce(c.expr(x.Results[0]), c.fn.Res, x.Results[0])
+			pre := c.takeGuards(ind, tail, x)
+			return pre + ind + c.retVal(v.Txt)
+		}
 		if len(x.Results) != 1 {
 			mgFail(x, "return with %d results", len(x.Results))
 		}
@@ -347,7 +440,32 @@ func (c *mgCtx) stmts(list []ast.Stmt, ind string, tail bool, k func(ind string)
 		}
 		call, ok := x.X.(*ast.CallExpr)
 		if ok {
-			if k := c.callee(call); k.PutU32 {
+			k := c.callee(call)
+			if k.Fn != nil && k.Recv != nil {
+				// c.M(e, ..) for a pointer-receiver method M without result: c := go_M c e ..
+				c.m.translate(k.Fn, call)
+				if k.Fn.Err != "" {
+					mgFail(call, "callee %s was not translated", k.Fn.Key)
+				}
+				sel := call.Fun.(*ast.SelectorExpr)
+				id, isId := sel.X.(*ast.Ident)
+				if k.Fn.PtrRecv && k.Fn.Res == nil && isId && c.env[id.Name] != nil {
+					k.stmtCall = true
+					v, partial := c.callText(call, k)
+					pre := c.takeGuards(ind, tail, x)
+					name := c.env[id.Name].Coq
+					if partial {
+						if !tail {
+							mgFail(x, "a call that can panic inside a branch that is not in result position")
+						}
+						c.sawPartial = true
+						return pre + ind + "TRY " + name + " <- " + v.Txt + " IN\n" + next()
+					}
+					return pre + ind + "let " + name + " := " + v.Txt + " in\n" + next()
+				}
+				mgFail(x, "call statement `%s` is outside the fragment (c.M(..) for a pointer-receiver method without result only)", exprText(x.X))
+			}
+			if k.PutU32 {
 				// binary.BigEndian.PutUint32(b[:], e)  ->  b := put_be32 e
 				if len(call.Args) != 2 {
 					mgFail(call, "PutUint32 takes 2 arguments")
@@ -414,6 +532,9 @@ func (c *mgCtx) stmts(list []ast.Stmt, ind string, tail bool, k func(ind string)
 
 	case *ast.ForStmt:
 		return c.forStmt(x, rest, ind, tail, k)
+
+	case *ast.RangeStmt:
+		return c.rangeStmt(x, rest, ind, tail, k)
 	}
 	mgFail(s, "statement %T is outside the fragment", s)
 	return ""
@@ -434,6 +555,18 @@ func (c *mgCtx) assign(x *ast.AssignStmt, rest []ast.Stmt, ind string, tail bool
 	}
 	if x.Tok != token.DEFINE && x.Tok != token.ASSIGN {
 		mgFail(x, "assignment operator %s", x.Tok)
+	}
+	// a, b, found := strings.Cut(..) and the other multi-value primitives
+	if len(x.Lhs) >= 2 && len(x.Rhs) == 1 {
+		if call, ok := x.Rhs[0].(*ast.CallExpr); ok {
+			if sel, ok := call.Fun.(*ast.SelectorExpr); ok {
+				if _, isId := sel.X.(*ast.Ident); isId && sel.Sel.Name != "Zone" {
+					if kk := c.callee(call); kk.Tuple != "" {
+						return c.tupleAssign(x, call, kk.Tuple, ind, tail, next)
+					}
+				}
+			}
+		}
 	}
 	// _, off := t.Zone()
 	if len(x.Lhs) == 2 && len(x.Rhs) == 1 {
@@ -520,6 +653,30 @@ func (c *mgCtx) assign(x *ast.AssignStmt, rest []ast.Stmt, ind string, tail bool
 		}
 		v = mgVal{Txt: strings.Join(parts, " "), T: loc.T}
 		name = loc.Coq
+	case *ast.StarExpr:
+		// *c = e for the pointer receiver c
+		id, ok := l.X.(*ast.Ident)
+		if !ok || x.Tok != token.ASSIGN || !c.fn.PtrRecv || id.Name != c.fn.RecvGo {
+			mgFail(x, "assignment to %s is outside the fragment (*c = e for the pointer receiver c only)", exprText(l))
+		}
+		loc := c.env[id.Name]
+		v = c.coerce(v, loc.T, x.Rhs[0])
+		name = loc.Coq
+	case *ast.IndexExpr:
+		// s[i] = e: Go's checked store
+		id, ok := l.X.(*ast.Ident)
+		if !ok || x.Tok != token.ASSIGN || c.env[id.Name] == nil || c.env[id.Name].T.Kind != mgSlice || c.env[id.Name].T.Elem.Kind != mgInt {
+			mgFail(x, "assignment to %s is outside the fragment (s[i] = e for a local slice of integers only)", exprText(l))
+		}
+		if partial {
+			mgFail(x, "a call that can panic assigned to an element")
+		}
+		loc := c.env[id.Name]
+		i := c.coerce(c.expr(l.Index), mgBuiltin("int"), l.Index)
+		e := c.coerce(v, loc.T.Elem, x.Rhs[0])
+		c.hoist("if slice_oob "+loc.Coq+" "+i.par()+" then None else", x, "the index expression "+exprText(l))
+		v = mgVal{Txt: "slice_set " + loc.Coq + " " + i.par() + " " + e.par(), T: loc.T}
+		name = loc.Coq
 	default:
 		mgFail(x, "assignment to %s is outside the fragment", exprText(x.Lhs[0]))
 	}
@@ -556,7 +713,23 @@ func mgElseList(s ast.Stmt) []ast.Stmt {
 
 func (c *mgCtx) ifStmt(x *ast.IfStmt, rest []ast.Stmt, ind string, tail bool, k func(string) string) string {
 	if x.Init != nil {
-		mgFail(x, "if with an init statement")
+		// if init; cond { .. }  ->  init; if cond { .. }   when init declares no name that is already in scope
+		as, ok := x.Init.(*ast.AssignStmt)
+		if !ok {
+			mgFail(x, "if with an init statement that is not an assignment")
+		}
+		if as.Tok == token.DEFINE {
+			for _, l := range as.Lhs {
+				if id, ok := l.(*ast.Ident); ok && id.Name != "_" {
+					if _, exists := c.env[id.Name]; exists {
+						mgFail(x, "if-init declares %s, which is already in scope", id.Name)
+					}
+				}
+			}
+		}
+		y := *x
+		y.Init = nil
+		return c.stmts(append([]ast.Stmt{x.Init, &y}, rest...), ind, tail, k)
 	}
 	cv := c.cond(x.Cond)
 	pre := c.takeGuards(ind, tail, x)
@@ -595,7 +768,25 @@ func (c *mgCtx) ifStmt(x *ast.IfStmt, rest []ast.Stmt, ind string, tail bool, k 
 		all = append(all, el...)
 	}
 	if n := mgHasExit(all); n != nil {
-		mgFail(n, "return/panic/branch statement in an if branch that does not return on every path")
+		// a branch that may return but need not: `if c { A } rest` = `if c then (A; rest) else rest`
+		if x.Else != nil || !tail || c.loopDepth > 0 || mgHasJump(all) != nil {
+			mgFail(n, "return/panic/branch statement in an if branch that does not return on every path (supported: `if c { .. return .. }` without else, in result position, outside loops)")
+		}
+		outer := c.env
+		for _, d := range mgDeclaredNames(x.Body.List) {
+			if _, exists := outer[d]; exists {
+				mgFail(x, "a branch that may return declares %s, which is already in scope", d)
+			}
+		}
+		restK := func(i string) string {
+			saved := c.env
+			c.env = outer
+			defer func() { c.env = saved }()
+			return c.stmts(rest, i, tail, k)
+		}
+		a := branch(x.Body.List, true, restK)
+		b := branch(rest, tail, k)
+		return pre + ind + "if " + cv.Txt + " then\n" + a + "\n" + ind + "else\n" + b
 	}
 	w := c.assignedOuter(all)
 	if len(w) == 0 {
@@ -787,5 +978,214 @@ func (c *mgCtx) forStmt(x *ast.ForStmt, rest []ast.Stmt, ind string, tail bool, 
 	fmt.Fprintf(&f, "  match fuel with\n  | O => %s\n  | S fuel' =>\n    if %s then\n%s\n    else %s\n  end.\n", val, cv.Txt, body, val)
 	c.fn.Pre += f.String()
 	call := strings.Join(append(append([]string{name, "(Z.to_nat " + start.par() + ")"}, outerInv...), append([]string{start.par()}, outerW...)...), " ")
+	return ind + "let " + pat + " := " + call + " in\n" + c.stmts(rest, ind, tail, k)
+}
+
+// mgHasJump: break / continue / goto / labels / go / defer / function literals
+func mgHasJump(list []ast.Stmt) (found ast.Node) {
+	for _, s := range list {
+		ast.Inspect(s, func(n ast.Node) bool {
+			switch n.(type) {
+			case *ast.BranchStmt, *ast.LabeledStmt, *ast.GoStmt, *ast.DeferStmt, *ast.FuncLit:
+				found = n
+			}
+			return found == nil
+		})
+	}
+	return
+}
+
+// mgDeclaredNames: the names a statement list declares (at any depth)
+func mgDeclaredNames(list []ast.Stmt) []string {
+	var out []string
+	for _, s := range list {
+		ast.Inspect(s, func(n ast.Node) bool {
+			switch x := n.(type) {
+			case *ast.AssignStmt:
+				if x.Tok == token.DEFINE {
+					for _, l := range x.Lhs {
+						if id, ok := l.(*ast.Ident); ok && id.Name != "_" {
+							out = append(out, id.Name)
+						}
+					}
+				}
+			case *ast.ValueSpec:
+				for _, id := range x.Names {
+					out = append(out, id.Name)
+				}
+			case *ast.RangeStmt:
+				if x.Tok == token.DEFINE {
+					for _, e := range []ast.Expr{x.Key, x.Value} {
+						if id, ok := e.(*ast.Ident); ok && id.Name != "_" {
+							out = append(out, id.Name)
+						}
+					}
+				}
+			}
+			return true
+		})
+	}
+	return out
+}
+
+// a, b, c := prim(args) for the multi-value primitives of mgTuplePrims
+func (c *mgCtx) tupleAssign(x *ast.AssignStmt, call *ast.CallExpr, q string, ind string, tail bool, next func() string) string {
+	p := mgTuplePrims[q]
+	if len(x.Lhs) != len(p.Res) {
+		mgFail(x, "%s has %d results", q, len(p.Res))
+	}
+	if len(call.Args) != 1+len(p.Lits) && q != "strings.Cut" {
+		mgFail(call, "%s takes %d arguments", q, 1+len(p.Lits))
+	}
+	if len(call.Args) < 1 {
+		mgFail(call, "%s without arguments", q)
+	}
+	sv := c.coerce(c.expr(call.Args[0]), mgBuiltin("string"), call.Args[0])
+	txt := p.Coq
+	switch q {
+	case "strings.Cut":
+		var lit *ast.BasicLit
+		if len(call.Args) == 2 {
+			lit, _ = call.Args[1].(*ast.BasicLit)
+		}
+		if lit == nil || lit.Kind != token.STRING || len(c.asciiLit(lit)) != 1 {
+			mgFail(call, "strings.Cut: the separator must be a one-byte string literal (model: TypeStr.cut_byte)")
+		}
+		txt += fmt.Sprintf(" %d%%N %s", c.asciiLit(lit)[0], sv.par())
+	default:
+		for i, want := range p.Lits {
+			lit, ok := call.Args[1+i].(*ast.BasicLit)
+			if !ok || lit.Value != want {
+				mgFail(call, "%s: argument %d must be the literal %s (the model %s is written for it)", q, i+2, want, p.Coq)
+			}
+		}
+		if p.TZ {
+			c.fn.UsesTZ = true
+			txt += " tzdb"
+		}
+		txt += " " + sv.par()
+	}
+	pre := c.takeGuards(ind, tail, x)
+	names := make([]string, len(x.Lhs))
+	for i, l := range x.Lhs {
+		id, ok := l.(*ast.Ident)
+		if !ok {
+			mgFail(x, "assignment of a result of %s to %s", q, exprText(l))
+		}
+		t := mgBuiltin(p.Res[i])
+		if id.Name == "_" {
+			names[i] = "_"
+			continue
+		}
+		if x.Tok == token.DEFINE {
+			names[i] = c.declare(id.Name, t).Coq
+			continue
+		}
+		loc := c.env[id.Name]
+		if loc == nil || !loc.T.compatible(t) {
+			mgFail(x, "assignment of a result of %s (%s) to %s", q, t, id.Name)
+		}
+		names[i] = loc.Coq
+	}
+	return pre + ind + "let '(" + strings.Join(names, ", ") + ") := " + txt + " in\n" + next()
+}
+
+// for i, v := range s { body }  ->  a structural Fixpoint over the list s; the body is in result position and the
+// recursive call is its continuation
+func (c *mgCtx) rangeStmt(x *ast.RangeStmt, rest []ast.Stmt, ind string, tail bool, k func(string) string) string {
+	shape := "the range loop of the fragment is `for i, v := range s { .. }` or `for _, v := range s { .. }` over a slice variable s that the body does not assign"
+	sid, ok := x.X.(*ast.Ident)
+	if !ok || x.Tok != token.DEFINE || c.env[sid.Name] == nil || c.env[sid.Name].T.Kind != mgSlice {
+		mgFail(x, "%s", shape)
+	}
+	sl := c.env[sid.Name]
+	vid, ok := x.Value.(*ast.Ident)
+	if !ok || vid.Name == "_" {
+		mgFail(x, "%s", shape)
+	}
+	var kid *ast.Ident
+	if x.Key != nil {
+		if kid, ok = x.Key.(*ast.Ident); !ok {
+			mgFail(x, "%s", shape)
+		}
+		if kid.Name == "_" {
+			kid = nil
+		}
+	}
+	if !tail {
+		mgFail(x, "range loop inside a branch or loop body that is not in result position")
+	}
+	if n := mgHasExit(x.Body.List); n != nil {
+		mgFail(n, "return/panic/break/continue in a loop body")
+	}
+	w := c.assignedOuter(x.Body.List)
+	if len(w) == 0 {
+		mgFail(x, "loop without effect")
+	}
+	isW := map[string]bool{}
+	for _, n := range w {
+		if n == sid.Name {
+			mgFail(x, "the ranged slice %s is assigned in the body", n)
+		}
+		isW[n] = true
+	}
+	var inv []string
+	seen := map[string]bool{vid.Name: true}
+	if kid != nil {
+		seen[kid.Name] = true
+	}
+	ast.Inspect(x.Body, func(nd ast.Node) bool {
+		if id, ok := nd.(*ast.Ident); ok {
+			if l := c.env[id.Name]; l != nil && !isW[id.Name] && !seen[id.Name] {
+				seen[id.Name] = true
+				inv = append(inv, id.Name)
+			}
+		}
+		return true
+	})
+	c.fn.nloops++
+	name := fmt.Sprintf("%s_range%d", c.fn.CoqName, c.fn.nloops)
+	pat, val, typ := c.tuple(w)
+	var outerInv, params, outerW, wparams []string
+	for _, n := range inv {
+		outerInv = append(outerInv, c.env[n].Coq)
+		params = append(params, fmt.Sprintf("(%s : %s)", c.env[n].Coq, c.env[n].T.coq()))
+	}
+	for _, n := range w {
+		outerW = append(outerW, c.env[n].Coq)
+		wparams = append(wparams, fmt.Sprintf("(%s : %s)", c.env[n].Coq, c.env[n].T.coq()))
+	}
+	done := c.scope()
+	idx := "idx_"
+	if kid != nil {
+		idx = c.declare(kid.Name, mgBuiltin("int")).Coq
+	}
+	vl := c.declare(vid.Name, sl.T.Elem)
+	for _, n := range append(append([]string{}, outerInv...), outerW...) {
+		if n == idx || n == vl.Coq {
+			mgFail(x, "loop variable shadows %s", n)
+		}
+	}
+	recur := func(i string) string {
+		return i + strings.Join(append(append([]string{name}, outerInv...), append([]string{"rng'", "(" + idx + " + 1)"}, outerW...)...), " ")
+	}
+	c.loopDepth++
+	body := c.stmts(x.Body.List, "    ", true, recur)
+	c.loopDepth--
+	done()
+	rt := typ
+	if c.fn.Partial {
+		rt = "option " + typ
+	}
+	var f strings.Builder
+	fmt.Fprintf(&f, "(* the loop at %s over the elements of %s, index %s counted from 0 *)\n", c.m.relPos(x.Pos()), sid.Name, idx)
+	fmt.Fprintf(&f, "Fixpoint %s (rng : %s) (%s : Z) %s {struct rng} : %s :=\n", strings.Join(append([]string{name}, params...), " "), sl.T.coq(), idx, strings.Join(wparams, " "), rt)
+	fmt.Fprintf(&f, "  match rng with\n  | [] => %s\n  | %s :: rng' =>\n%s\n  end.\n", c.some(val), vl.Coq, body)
+	c.fn.Pre += f.String()
+	call := strings.Join(append(append([]string{name}, outerInv...), append([]string{sl.Coq, "0"}, outerW...)...), " ")
+	if c.fn.Partial {
+		return ind + "match " + call + " with\n" + ind + "| None => None\n" + ind + "| Some " + strings.TrimPrefix(pat, "'") + " =>\n" +
+			mgIndent(c.stmts(rest, ind, tail, k), "  ") + "\n" + ind + "end"
+	}
 	return ind + "let " + pat + " := " + call + " in\n" + c.stmts(rest, ind, tail, k)
 }
